@@ -192,7 +192,7 @@ Lemma cell_contains_point_sound c lon lat lon' lat' :
   encl lon lon' -> encl lat lat' ->
   sound_opt encl (cell_contains_point IvInst c lon lat) (cell_contains_point RInst c lon' lat').
 Proof.
-  intros Hlon Hlat. cbv beta iota zeta delta [cell_contains_point from_lon_lat]. snd.
+  intros Hlon Hlat. cbv beta iota zeta delta [cell_contains_point from_lon_lat axis_of]. snd.
 Qed.
 
 Ltac snd_cell6 :=
